@@ -73,7 +73,8 @@ def run(ctx):
         rule=("non-trivial: base cases (valid configuration decoded, defaults and discard_overflow checked), and every "
               "mutation case on which the specification constrains the outcome (unknown key at a strict path, wrongly "
               "typed value, value violating its validate tag, missing required value, placeholder, unresolved "
-              "placeholder); direct cases of the header-list decoder and of the property-file reader; distinct = distinct case lines"),
+              "placeholder); direct cases of the header-list decoder and of the property-file reader; app cases on which at least one "
+              "held option is judged against the written section and the registered default; distinct = distinct case lines"),
         key_fn=key_fn, what_fn=what_fn,
         translators=[("schema", "ConfigSchemaGen.v")],
         bridge_files=["Gen/ConfigSchema_bridge.v", "Gen/ConfigApplied_bridge.v", "Properties/C17_depth.v", "Properties/C17_ctor.v", "Properties/C17_applied.v"],
@@ -81,7 +82,8 @@ def run(ctx):
             "translator harness/cmd/translate schema (reflection over the real plugin registry after the CLI's imports; package harness/internal/a16schema)",
             "verif hooks in /repo: core/plugin/verif_schema.go (read-only registry listing), cli/verif_export.go (exports readConfig)",
             "extraction: ExtrOcamlBasic only; OCaml driver ocaml/C17/main.ml + ocaml/common/conv.ml",
-            "correspondence harness harness/cmd/hC17 (real config.DecodeAndValidate on cli.DefaultConfig() and on every registered default config; cli.readConfig in a subprocess; util.DecodeHeader / util.DecodeHTTPConfigHeaders and confutil.PropertyTagResolver called directly)",
+            "correspondence harness harness/cmd/hC17 (real config.DecodeAndValidate on cli.DefaultConfig() and on every registered default config; cli.readConfig in a subprocess; util.DecodeHeader / util.DecodeHTTPConfigHeaders and confutil.PropertyTagResolver called directly; component sections through the pluginconfig hook + plugin.New + the registered constructor, products searched by reflection; config.DecodeAndValidate on reflect.StructOf types)",
+            "the reflection search for held configurations and the table of constructor-derived options (harness/internal/a16schema/applied.go FindHeld / RulesFor / ctorDerived); tied by the `app` correspondence run",
             "the table of constructor-enforced constraints in harness/internal/a16schema/reflect.go ctorConstraint (which option of which Go config type a constructor checks: http provider Headers); tied by the correspondence run on every component carrying it",
             "oracles (Section variables; answered per case by the real libraries through the harness): os.LookupEnv, the bytes of the property files (the reader itself is modelled), time.ParseDuration, datasize, zapcore.Level.UnmarshalText, strconv.ParseInt/ParseFloat, endpoint/url-path validators",
             "modelled, not verified: mapstructure's decoding rules, validator.v9's tag semantics, the regexp of confutil.findTags (hand-written scanner), viper/YAML reading; component constructors are not modelled (bases are calibrated to construct)",
